@@ -6,6 +6,20 @@ import os
 ROOT = os.path.dirname(os.path.dirname(os.path.abspath(__file__)))
 
 CHECKS = {
+    "C14": {
+        "text": "Proof (Coq, closed under the global context): the verdict of a rule list is that of the first rule whose glob "
+                "matches, allow if none; on every fault-free tree and every filter a path is archived iff it exists and every "
+                "non-empty prefix of its item-relative path is allowed (pruning; the root is never filtered); `*` matches exactly "
+                "slash-free strings, `?` one non-slash byte, a leading `**/` nothing or everything up to a slash, `{..}` "
+                "alternates; blank and # lines are ignored; rule lines read back. The glob parser, token semantics, vsb's "
+                "unescaping and line parsing are a Gallina model compared with the real PathFilter on an exhaustive small "
+                "universe, grammar-generated specs with derived paths, and a malformed stream.",
+        "note": "Partial: globset's regex engine is trusted to implement each token's language (parser and translation are "
+                "modelled); the walker's use of the filter (item-relative path, no descent) is proved on the walker model and "
+                "tied to the real binary by the storage-level checks (C08/C01 histories with filters).",
+        "technique": "Coq proofs on a glob/filter/walker model + exhaustive and grammar-based differential correspondence",
+        "design": "7/C14",
+    },
     "C17": {
         "text": "Proof (Coq, closed under the global context) on a model of splitter(): for every maximum m >= 1, every "
                 "fragmentation of the stream into payload blocks and a receiver that stays, the bodies the provider sees are "
